@@ -61,5 +61,6 @@ Auth(rel, t)     == Apply(Call("Auth", rel, t))
 Save             == Apply(Call("Save", NoRel, ""))
 Load             == Apply(Call("Load", NoRel, ""))
 Edit(pos)        == Apply([call |-> "Edit", rel |-> NoRel, tok |-> "", pos |-> pos])
+Delete(pos)      == Apply([call |-> "Delete", rel |-> NoRel, tok |-> "", pos |-> pos])
 Rekey(newcfg)    == Apply([call |-> "Rekey", rel |-> NoRel, tok |-> "", pos |-> 0, cfg |-> newcfg])
 =============================================================================
